@@ -72,8 +72,7 @@ def run(ctx):
                            meta={"field": f["name"], "field_index": order.index(f["name"]), "type": f["ty"], "text": v})
                 c2.base = base_idx
                 cases.append(c2)
-            for k in range(2 if ctx.tier == "quick" else 6):
-                v = ind.value_for(f["ty"], r, False)
+            for v in ind.malformed_values(f["ty"]):
                 c = ICase(name, "run", [(f["name"], v)], cs[0], cs[1:3], kind="set-maybe-malformed",
                           meta={"field": f["name"], "field_index": order.index(f["name"]), "type": f["ty"], "text": v})
                 c.base = base_idx
@@ -87,6 +86,24 @@ def run(ctx):
             cases.append(c)
     impl, _ = ctx.run_suite("indicator-interface", cases, HEADER, model=False,
                             theorem="Properties/C11.v (C11_tables_ok, C11_set_exact, C11_every_public_parameter_settable)")
+    # ---- IndicatorResult::new for every count of values / signals 0..8: the announced lengths are min(4, count), the slices have
+    # exactly that many entries (no panic when reading them) and hold the leading inputs
+    from ..suites.action import Simple
+    rcases = []
+    for nv in range(0, 9):
+        for ns in range(0, 9):
+            def orc(io, nv=nv, ns=ns):
+                ev, es = min(4, nv), min(4, ns)
+                if not io or io[0] != 0:
+                    return ["IndicatorResult::new(%d values, %d signals) panicked" % (nv, ns)]
+                if core.T_PANIC in io:
+                    return ["reading values()/signals() of IndicatorResult::new(%d values, %d signals) panicked (announced lengths %s)" % (nv, ns, io[1:5])]
+                if io[1:7] != [ev, es, ev, es, ev, es] or io[7] != 1:
+                    return ["IndicatorResult::new(%d values, %d signals): announced lengths / size() / slice lengths / contents are %s, "
+                            "expected %s with the leading inputs" % (nv, ns, io[1:8], [ev, es, ev, es, ev, es, 1])]
+                return []
+            rcases.append(Simple("iresult %d %d" % (nv, ns), None, "result-new", oracle=orc, extra={"values": nv, "signals": ns}))
+    ctx.run_suite("indicator-result-new", rcases, HEADER, model=False, theorem="Properties/C11.v (C11_result_new_shape)")
     # ---- oracles over the transcripts
     parsed = [ind.parse(o, len(c.sets)) if o else None for c, o in zip(cases, impl)]
     for i, (c, p) in enumerate(zip(cases, parsed)):
